@@ -121,15 +121,37 @@ func request(k int, withProto, withExt bool, deflateOffer ...string) []byte {
 		}
 	}
 	if withExt {
-		fmt.Fprintf(&b, "Sec-WebSocket-Extensions: %s\r\n", extFor(k))
+		deflate := fmt.Sprintf("permessage-deflate; client_max_window_bits=%d", 8+k%8)
 		if len(deflateOffer) > 0 {
-			fmt.Fprintf(&b, "Sec-WebSocket-Extensions: %s\r\n", deflateOffer[0])
-		} else {
-			fmt.Fprintf(&b, "Sec-WebSocket-Extensions: permessage-deflate; client_max_window_bits=%d\r\n", 8+k%8)
+			deflate = deflateOffer[0]
+		}
+		for _, line := range extLines(k, deflate) {
+			fmt.Fprintf(&b, "Sec-WebSocket-Extensions: %s\r\n", strings.Join(line, ", "))
 		}
 	}
 	b.WriteString("\r\n")
 	return []byte(b.String())
+}
+
+// extLines lays the client's extension offers out over header lines: the
+// foreign offer and permessage-deflate on a line each; both on one line and a
+// second foreign offer on the next; three lines.
+func extLines(k int, deflate string) [][]string {
+	switch k / 3 % 3 {
+	case 1:
+		return [][]string{{extFor(k), deflate}, {extFor(k + 1)}}
+	case 2:
+		return [][]string{{extFor(k)}, {deflate}, {extFor(k + 1)}}
+	}
+	return [][]string{{extFor(k)}, {deflate}}
+}
+
+// foreignOffers are the ext-* offers of request k, in order.
+func foreignOffers(k int) []string {
+	if k/3%3 == 0 {
+		return []string{extFor(k)}
+	}
+	return []string{extFor(k), extFor(k + 1)}
 }
 
 var upgraderPaths = []string{"Protocol", "Extension", "Negotiate-wsflate", "Negotiate-copy", "Protocol+Extension"}
@@ -146,7 +168,7 @@ func upgradeOnce(c *mon.C, path string, k int) (ws.Handshake, string, error) {
 	switch path {
 	case "Extension", "Protocol+Extension":
 		u.Extension = func(o httphead.Option) bool { return strings.HasPrefix(string(o.Name), "ext-") }
-		wantExts = []string{extFor(k)}
+		wantExts = foreignOffers(k)
 	case "Negotiate-wsflate":
 		if k%2 == 1 {
 			// server configurations x offers that repeat the configuration EXACTLY (the answer then carries the
@@ -182,7 +204,9 @@ func upgradeOnce(c *mon.C, path string, k int) (ws.Handshake, string, error) {
 		wantExts = []string{"permessage-deflate; server_no_context_takeover; client_max_window_bits=8"}
 	case "Negotiate-copy":
 		u.Negotiate = func(o httphead.Option) (httphead.Option, error) { return o.Clone(), nil }
-		wantExts = []string{extFor(k), fmt.Sprintf("permessage-deflate; client_max_window_bits=%d", 8+k%8)}
+		for _, line := range extLines(k, fmt.Sprintf("permessage-deflate; client_max_window_bits=%d", 8+k%8)) {
+			wantExts = append(wantExts, line...)
+		}
 	}
 	want = renderOpts(wantProto, wantExts)
 	plans := xport.Plans(int64(k), nil)
@@ -269,7 +293,7 @@ func subHTTPUpgrader() mon.Sub {
 				a, b := fakeconn.BufPipe()
 				w := &hijackRW{conn: a, buf: bufio.NewReadWriter(bufio.NewReader(a), bufio.NewWriter(a)), hdr: http.Header{}}
 				u := ws.HTTPUpgrader{Protocol: func(s string) bool { return strings.Contains(s, ".v") && s != "nope.v0" }}
-				wantExts := []string{extFor(k)}
+				wantExts := foreignOffers(k)
 				switch i % 3 {
 				case 0:
 					u.Extension = func(o httphead.Option) bool { return strings.HasPrefix(string(o.Name), "ext-") }
